@@ -266,3 +266,40 @@ pub fn text_to_lines(text: &str) -> Value {
 }
 
 pub type IM<K, V> = IndexMap<K, V>;
+
+/// Abstract diff -> line records of the .tinydiff text (mirror of DiffLines in spec/quill/DiffApply.tla);
+/// only diffs without a namespace or top-level comment action have a textual form.
+pub fn diff_to_lines(d: &Value) -> Result<Value> {
+	fn cells(act: &Value, is_doc: bool) -> Result<(String, String)> {
+		let a = act.as_array().context("action")?;
+		let p = |v: &Value| -> String { if is_doc { v[0].as_str().unwrap_or("").to_owned() } else { v.as_str().unwrap_or("").to_owned() } };
+		Ok(match a[0].as_str() {
+			Some("none") => (String::new(), String::new()),
+			Some("add") => (String::new(), p(&a[1])),
+			Some("rem") => (p(&a[1]), String::new()),
+			Some("edit") => (p(&a[1]), p(&a[2])),
+			o => bail!("bad action {o:?}"),
+		})
+	}
+	fn node(n: &Value, ind: usize, out: &mut Vec<Value>) -> Result<()> {
+		let k = &n["key"];
+		let (a, b) = cells(&n["info"], false)?;
+		let kind = k["kind"].as_str().context("kind")?;
+		let head: Vec<String> = match kind {
+			"c" => vec![k["name"].as_str().unwrap_or("").to_owned(), a, b],
+			"f" | "m" => vec![k["desc"].as_str().unwrap_or("").to_owned(), k["name"].as_str().unwrap_or("").to_owned(), a, b],
+			_ => vec![k["idx"].to_string(), String::new(), a, b],
+		};
+		out.push(json!({"ind": ind, "tag": kind, "cells": head}));
+		if n["doc"][0] != "none" {
+			let (a, b) = cells(&n["doc"], true)?;
+			out.push(json!({"ind": ind + 1, "tag": "c", "cells": [a, b]}));
+		}
+		for (_, c) in kids_of(n) { node(c, ind + 1, out)?; }
+		Ok(())
+	}
+	if d["info"][0] != "none" || d["doc"][0] != "none" { bail!("diff has no textual form"); }
+	let mut out = vec![json!({"ind": 0, "tag": "tiny", "cells": ["2", "0"]})];
+	for (_, c) in kids_of(d) { node(c, 0, &mut out)?; }
+	Ok(Value::Array(out))
+}
